@@ -185,3 +185,9 @@ pub(crate) fn is_target_log_more_recent(
     (target_last_log_term > my_last_log_term)
         || (target_last_log_term == my_last_log_term && target_last_log_index >= my_last_log_index)
 }
+
+// Verification hook (add-only, inert unless the crate is compiled by Kani):
+// harness text lives outside the repository, under /verif/kani.
+#[cfg(kani)]
+#[path = "/verif/kani/core_harness.rs"]
+mod verif_kani;
